@@ -57,8 +57,8 @@ Emit == OnTree(PrintT(<<"CASE", ToJson([min |-> Min(t), full |-> Full(t), at |->
                                         tt |-> TruthTable(t, SS)])>>))
 
 \* operand pools
-OpsSmall == {<<"a">>, <<"b">>, <<"a","*">>, <<"?","b">>}
-OpsMid   == {<<"a">>, <<"b">>, <<"c",".","d">>, <<"a","*">>, <<"?","b">>, <<"x","-","y","=","1">>}
+OpsSmall == {<<"a">>, <<"b">>, <<"a","*">>, <<"?","b">>, <<"*">>}
+OpsMid   == {<<"a">>, <<"b">>, <<"c",".","d">>, <<"a","*">>, <<"?","b">>, <<"x","-","y","=","1">>, <<"*">>}
 OpsFull  == OpsMid \cup {<<"[","a","z","]","b">>, <<"[","!","a","]","b">>}
 Univ     == << <<"a">>, <<"b">>, <<"a","b">>, <<"z","b">>, <<"c",".","d">>, <<"x","-","y","=","1">> >>
 =============================================================================
